@@ -106,3 +106,33 @@ func VerifC05Trunc() {
 	}
 	zz.Reach("end")
 }
+
+// VerifC05ManyTracks: a format-1 file with more track chunks than a 16-bit signed counter can count
+// (the header allows 65535): reading must not panic and must return all of them.
+func VerifC05ManyTracks() {
+	n := zz.Param("ntracks")
+	d := zz.U8("last-delta")
+	zz.Assume(d < 0x80)
+	file := c02header(1, uint16(n), c02division())
+	one := c02chunk("MTrk", []byte{0, 0xFF, 0x2F, 0})
+	for t := 0; t < n-1; t++ {
+		file = append(file, one...)
+	}
+	file = append(file, c02chunk("MTrk", []byte{d, 0xFF, 0x2F, 0})...)
+	var s *SMF
+	var err error
+	panicked := zz.Panics(func() { s, err = ReadFrom(bytes.NewReader(file)) })
+	zz.Assert(!panicked, "many:no-panic")
+	if panicked {
+		return
+	}
+	zz.Assert(err == nil && s != nil, "many:valid-file-accepted")
+	if err == nil && s != nil {
+		zz.Assert(len(s.Tracks) == n, "many:all-tracks-returned")
+		if len(s.Tracks) == n {
+			last := s.Tracks[n-1]
+			zz.Assert(len(last) == 1 && last[0].Delta == uint32(d), "many:last-track-content")
+		}
+	}
+	zz.Reach("end")
+}
